@@ -11,6 +11,7 @@ import TinodeVerif.Driver.Calls
 import TinodeVerif.Driver.Files
 import TinodeVerif.Driver.Preview
 import TinodeVerif.Driver.Basic
+import TinodeVerif.Driver.Pb
 /-!
 Line-protocol driver. Usage:
   driver model    < ops.txt        > model.out     one output line per op line
@@ -43,6 +44,7 @@ def modelLine (st : DState) (line : String) : DState × String :=
       else if w.startsWith "tok." || w.startsWith "key." then Driver.C12.model ws
       else if w.startsWith "tx." then Driver.C18.model ws
       else if w.startsWith "push." then Driver.Preview.model ws
+      else if w.startsWith "pb." then Driver.Pb.model ws
       else none
     match r with
     | some s => (st, s)
@@ -64,6 +66,7 @@ def verdictLine (line : String) : String :=
         else if w.startsWith "q." || w.startsWith "tags." then Driver.C19.verdict ws os
         else if w.startsWith "tok." || w.startsWith "key." || w.startsWith "code." then Driver.C12.verdict ws os
         else if w.startsWith "push." then Driver.Preview.verdict ws os
+        else if w.startsWith "pb." then Driver.Pb.verdict ws os
         else some true
       match r with
       | some true => "ok"
